@@ -32,6 +32,9 @@ use vh_engine::{Check, Known};
 pub struct Blob {
     pub bytes: Arc<Vec<u8>>,
     pub hash: u64,
+    /// modification time of the file (DiskCache stamps a file's expiry there); restored by
+    /// `write_tree`. `None`: whatever the image writer's clock gives.
+    pub mtime: Option<std::time::SystemTime>,
 }
 
 impl Blob {
@@ -39,7 +42,11 @@ impl Blob {
         let mut h = DefaultHasher::new();
         h.write(&v);
         h.write_u64(v.len() as u64);
-        Blob { hash: h.finish(), bytes: Arc::new(v) }
+        Blob { hash: h.finish(), bytes: Arc::new(v), mtime: None }
+    }
+    pub fn with_mtime(mut self, t: Option<std::time::SystemTime>) -> Self {
+        self.mtime = t;
+        self
     }
 }
 
@@ -58,9 +65,10 @@ fn read_tree_into(root: &Path, rel: &str, prev: &Files, out: &mut Files) {
         } else if ft.is_file() {
             let bytes = std::fs::read(e.path()).unwrap_or_default();
             // share the allocation with the previous snapshot when unchanged
+            let mtime = e.metadata().and_then(|m| m.modified()).ok();
             let blob = match prev.get(&r) {
-                Some(p) if *p.bytes == bytes => p.clone(),
-                _ => Blob::new(bytes),
+                Some(p) if *p.bytes == bytes => p.clone().with_mtime(mtime),
+                _ => Blob::new(bytes).with_mtime(mtime),
             };
             out.insert(r, blob);
         }
@@ -80,6 +88,11 @@ pub fn write_tree(root: &Path, files: &Files) {
             let _ = std::fs::create_dir_all(parent);
         }
         std::fs::write(&p, &*blob.bytes).expect("write image file");
+        if let Some(t) = blob.mtime {
+            if let Ok(f) = std::fs::OpenOptions::new().write(true).open(&p) {
+                let _ = f.set_modified(t);
+            }
+        }
     }
 }
 
@@ -89,6 +102,9 @@ pub fn tree_hash(files: &Files) -> u64 {
         h.write(k.as_bytes());
         h.write_u8(0);
         h.write_u64(b.hash);
+        if let Some(d) = b.mtime.and_then(|t| t.duration_since(std::time::UNIX_EPOCH).ok()) {
+            h.write_u128(d.as_nanos());
+        }
     }
     h.finish()
 }
@@ -392,14 +408,14 @@ pub fn materialize(files: &Files, inf: Option<&InFlight<'_>>, kind: &ImageKind) 
             if *n > f.cur.bytes.len() || *n < f.durable_len {
                 return None;
             }
-            out.insert(f.path.to_string(), Blob::new(f.cur.bytes[..*n].to_vec()));
+            out.insert(f.path.to_string(), Blob::new(f.cur.bytes[..*n].to_vec()).with_mtime(f.cur.mtime));
         }
         (ImageKind::Zeros, Some(f)) => {
             let mut b = f.cur.bytes.to_vec();
             for x in &mut b[f.durable_len..] {
                 *x = 0;
             }
-            out.insert(f.path.to_string(), Blob::new(b));
+            out.insert(f.path.to_string(), Blob::new(b).with_mtime(f.cur.mtime));
         }
         (ImageKind::Stale, Some(f)) => {
             let s = f.stale.as_ref()?;
@@ -415,7 +431,7 @@ pub fn materialize(files: &Files, inf: Option<&InFlight<'_>>, kind: &ImageKind) 
             for i in *n..len {
                 b.push(s.bytes.get(i).copied().unwrap_or(0));
             }
-            out.insert(f.path.to_string(), Blob::new(b));
+            out.insert(f.path.to_string(), Blob::new(b).with_mtime(f.cur.mtime));
         }
     }
     Some(out)
